@@ -134,8 +134,13 @@ def ck1LineOk (line : Bytes) (k : Nat) (after : Bytes) : Bool :=
   else if line.getD (hsz - 2) 0 ≠ cr then false          -- p[-2] != '\r'
   else if k = hsz - 2 then true                          -- p-2 == s
   else
-    match (after.dropWhile isWsb).head? with
-    | some b => b = cr || b = 59
+    let a := after.dropWhile isWsb
+    match a.head? with
+    | some b =>
+      if b = cr || b = 59 then
+        -- CR only before LF; no other CTLs in the chunk extension (922b1b1): scan up to p-2
+        (a.take (a.length - 2)).all fun c => !((c < 32 && c ≠ 9) || c = 127)
+      else false
     | none => false
 
 /-- h1_chunked(): ONE call, read queue = `data` in one chunk, reqbody_queue.bytes_in = `bytesIn`,
@@ -199,6 +204,7 @@ def ck2 (data : Bytes) : CkOut :=
   match splitLf data [] with
   | none => if data.length ≥ Extracted.ckPartialMaxGw then .err 0 else .ok 0 0 0 false
   | some (line, rest) =>
+    if line.length > Extracted.ckLineMaxGw then .err 0 else      -- (0a90156)
     match ckHex Extracted.ckGuardGw line 0 0 with
     | .ub w => .ub w
     | .tooLarge => .err 0
@@ -462,8 +468,10 @@ def gwIter (maxField : Nat) (st : GwSt) (m : Bytes) : GwIter :=
         if m.length ≥ Extracted.ckPartialMaxGw then .err else .stop { st with h := m }
       | some (line, rest) =>
         let hsz := line.length
-        let ok := !(hsz = 1 || line.getD (hsz - 2) 0 ≠ cr)
-        gwLine maxField st m ok [] m hsz hsz rest false
+        if hsz > Extracted.ckLineMaxGw then .err                  -- (0a90156) same limit as for a split line
+        else
+          let ok := !(hsz = 1 || line.getD (hsz - 2) 0 ≠ cr)
+          gwLine maxField st m ok [] m hsz hsz rest false
     else
       match splitLf st.h [] with
       | some (line, rest) =>
